@@ -65,8 +65,8 @@ var _ = reserr.ErrInvalidRequest
 //@   ensures[C07] result == nil ==> (callcount("Reply") - old(callcount("Reply"))) + (handed() - old(handed())) == 1
 // (a frame is left unanswered only if no id was decoded from it: a JSON object with an unsigned
 // integer id gets its response even if the rest of it has the wrong types)
-//@   assert[C07] return#1: r.ID == nil
 //@   assert[C07] return#2: r.ID == nil
+//@   assert[C07] return#3: r.ID == nil
 //@   assert[C14] req.GetResource#1: codec.predValidRID(arg0, true)
 //@   assert[C14] req.SubscribeResource#1: codec.predValidRID(arg0, true)
 //@   assert[C14,C08] req.UnsubscribeResource#1: codec.predValidRID(arg0, true) && arg1 > 0
